@@ -6,6 +6,7 @@ pub mod jgen;
 pub mod rng;
 pub mod sx;
 mod c18_schema;
+mod c16_bodies;
 
 /// One module per property: `run` (generate cases + implementation outcomes), `replay`
 /// (one recorded case), `dump` (compiled constants for the translator).
